@@ -1,0 +1,32 @@
+//go:build verif
+
+package sync
+
+// SimHook is set by the deterministic simulator (build tag `verif` only).
+var SimHook struct {
+	// Yield is called at instrumented points; the simulator may park the caller there.
+	Yield func(label string)
+	// Acquire/Release bracket a mutex that is held across blocking calls, so
+	// that the simulator can serialise its contenders without them blocking on
+	// the mutex itself.
+	Acquire func(name string)
+	Release func(name string)
+}
+
+func simYield(label string) {
+	if f := SimHook.Yield; f != nil {
+		f(label)
+	}
+}
+
+func simAcquire(name string) {
+	if f := SimHook.Acquire; f != nil {
+		f(name)
+	}
+}
+
+func simRelease(name string) {
+	if f := SimHook.Release; f != nil {
+		f(name)
+	}
+}
